@@ -33,12 +33,21 @@ Fixpoint all2k (a : list (Z * option Z * bool)) (b : list (Z * option Z * bool *
 
 Definition check_kern (prop : Z) (inp impl : sx) : sx :=
   match inp, impl with
-  | L [A 17; A n; A proto; A method; A port; A first; A last; A silent; A pstate6], L [A status; A notsup; L hops] =>
+  | L [A 17; A n; A proto; A method; A port; A first; A last; A silent; A pstate6], L [A status; A notsup; L hops; A elapsed_ms] =>
       let pstate := pstate6 mod 4 in
       match dec_list d_khop hops with
       | Some hops =>
           let pa := mkPath n silent in
           let cls := 1 + 2 * n + 16 * proto + 64 * method + 512 * (pstate6 / 4) in
+          (* C08 on a real kernel (real clock, so with 2 s of slack): the lab's runs use a 400 ms timeout, 20 ms between probes,
+             100 ms polls; whatever the target does - listen, refuse, drop every segment so that connect() gets no answer - a
+             run is over after the SACK attempt (handshake timeout + its parallel run: timeout + 10 ms per probe + a poll) and the
+             SYN trace (per TTL: timeout + a poll) *)
+          let count := last - first + 1 in
+          let bound_ms := 400 + (400 + 10 * count + 100) + count * (400 + 100) + 2000 in
+          if prop =? 8 then
+            (if (status =? 3) || (bound_ms <? elapsed_ms) then verdict V_SPECFAIL cls [8; 7] (L [A bound_ms; A elapsed_ms]) else verdict V_OK cls [] (L []))
+          else
           let sack_unavailable := (proto =? 1) && negb (pstate =? 0) in
           if (proto =? 1) && (method =? 2) && sack_unavailable then
             (* method sack against a target that cannot do SACK: fails as not supported *)
